@@ -91,7 +91,7 @@ Record INV (mx : Z) (specs : list tspec) (s : cst) (d : sdata) (tr : trk) (cur c
   i_sc : forall w, In w (sd_syscall d) <-> In w (parked_ws d);
   i_susp : sd_suspend d = [];
   i_run : c_run s = Z.of_nat (length (allw cur R d));
-  i_res : forall t r, assoc_get t (c_res s) = Some r -> status tr t = Finished;
+  i_res : forall t r, assoc_get t (c_res s) = Some r -> (t < length specs)%nat /\ status tr t = Finished;
   i_act : forall t, status tr t = Active -> ct = Some t;
   i_asleep : forall t T, status tr t = Asleep T -> exists w k n lg,
       (In w (curw cur) \/ In w R \/ In (T, w) (sd_sys_suspend d)) /\ nth_error (c_ws s) w = Some k /\ hold k t n lg;
@@ -342,8 +342,8 @@ Proof.
     rewrite Hoth_st; [exact Hst|]. apply (Hothers w' k0 t' n lg); [right | exact Hk0 | exact Hh].
     unfold parked_ws. apply (in_map snd) in Hin. exact Hin.
   - intros t' r Hr'. destruct (Nat.eq_dec t' t) as [->|Hne].
-    + exfalso. apply Hn2. eapply Hres, Hr'.
-    + rewrite Hoth_st by exact Hne. eapply Hres, Hr'.
+    + exfalso. apply Hn2. apply (Hres _ _ Hr').
+    + rewrite Hoth_st by exact Hne. apply (Hres _ _ Hr').
   - intros t'. destruct (Nat.eq_dec t' t) as [->|Hne]; [reflexivity|].
     rewrite Hoth_st by exact Hne. apply Hact.
   - intros t' T. destruct (Nat.eq_dec t' t) as [->|Hne].
@@ -446,8 +446,8 @@ Proof.
     + left. apply in_allw. left. left. reflexivity.
     + rewrite Hnw in Hk0 by exact Hne. apply Hoth in Hk0. exact Hk0.
   - intros t' r Hr'. change (c_res (upd_w s1 w k')) with (c_res s) in Hr'. destruct (Nat.eq_dec t' t) as [->|Hne].
-    + apply Hres in Hr'. congruence.
-    + rewrite Hoth_st by exact Hne. eapply Hres, Hr'.
+    + apply Hres in Hr'. destruct Hr'. congruence.
+    + rewrite Hoth_st by exact Hne. apply (Hres _ _ Hr').
   - intros t'. destruct (Nat.eq_dec t' t) as [->|Hne]; [reflexivity|].
     rewrite Hoth_st by exact Hne. intro Hx. apply Hact in Hx. discriminate.
   - intros t' T. destruct (Nat.eq_dec t' t) as [->|Hne].
@@ -550,15 +550,15 @@ Qed.
 
 (** * The current task finishes: its result is stored *)
 Lemma inv_result mx specs s d tr w t Q R r :
-  INV mx specs s d tr (Some w) (Some t) Q R -> status tr t = Finished ->
+  INV mx specs s d tr (Some w) (Some t) Q R -> status tr t = Finished -> (t < length specs)%nat ->
   INV mx specs (s_res s (c_res s ++ [(t, r)])) d tr (Some w) None Q R.
 Proof.
-  intros H Hfin.
+  intros H Hfin Htl.
   destruct H as [Htq Hcq Htqi Hcqi Hcts Htb Htp Hwp Hnd Hlt HQnd HQst Hlen Hrun Hpark Hoth Hscnd Hsc Hsusp Hr Hres Hact Hasl Hinj Htrk Htrkl Hclk Hnsl].
   constructor; try assumption.
   - intros t' r'. cbn [c_res s_res]. rewrite assoc_get_snoc. destruct (assoc_get t' (c_res s)) eqn:E.
-    + intros _. eapply Hres, E.
-    + destruct (Nat.eqb t' t) eqn:E2; [|discriminate]. apply Nat.eqb_eq in E2. subst. intros _. exact Hfin.
+    + intros _. apply (Hres _ _ E).
+    + destruct (Nat.eqb t' t) eqn:E2; [|discriminate]. apply Nat.eqb_eq in E2. subst. intros _. split; assumption.
   - intros t' Ht'. pose proof (Hact t' Ht') as Hx. injection Hx as ->. congruence.
   - cbn [cslp] in *. assert (nwk (s_res s (c_res s ++ [(t, r)])) R = nwk s R) as -> by reflexivity. lia.
 Qed.
@@ -773,4 +773,112 @@ Proof.
   - assert (nwk (s_cq s cq') (R ++ [w]) = nwk s (R ++ [w])) as -> by reflexivity.
     rewrite nwk_app. unfold nwk at 2. cbn [filter]. unfold wokenb at 1. rewrite Hk, Hst. cbn [length cslp] in *.
     rewrite (slp_of_spec _ _ _ _ _ Hsp) in Hnsl. lia.
+Qed.
+
+(** * Operations between the passes *)
+Definition trk_submit (tr : trk) : trk :=
+  {| k_clock := k_clock tr; k_tasks := k_tasks tr ++ [NotStarted]; k_workers := k_workers tr;
+     k_judged := k_judged tr; k_ok := k_ok tr |}.
+Definition trk_clock (tr : trk) (c : Z) : trk :=
+  {| k_clock := c; k_tasks := k_tasks tr; k_workers := k_workers tr; k_judged := k_judged tr; k_ok := k_ok tr |}.
+
+Lemma nslp_ext specs specs' l : (forall t, In t l -> slp specs' t = slp specs t) -> nslp specs' l = nslp specs l.
+Proof. intro H. unfold nslp. f_equal. apply filter_ext_in, H. Qed.
+
+Lemma nslp_app specs l1 l2 : nslp specs (l1 ++ l2) = (nslp specs l1 + nslp specs l2)%nat.
+Proof. unfold nslp. rewrite filter_app, app_length. reflexivity. Qed.
+
+Lemma NoDup_app_snoc {A} (l : list A) x : NoDup l -> ~ In x l -> NoDup (l ++ [x]).
+Proof.
+  intros Hnd Hn. eapply Permutation_NoDup; [apply Permutation_cons_append|]. constructor; assumption.
+Qed.
+
+Lemma inv_submit mx specs s d tr Q R body sp :
+  INV mx specs s d tr None None Q R -> parse_body body = Some sp ->
+  INV mx (specs ++ [sp]) (submit_c s body) d (trk_submit tr) None None (Q ++ [length specs]) R.
+Proof.
+  intros H Hparse. apply parse_body_sound in Hparse.
+  destruct H as [Htq Hcq Htqi Hcqi Hcts Htb Htp Hwp Hnd Hlt HQnd HQst Hlen Hrun Hpark Hoth Hscnd Hsc Hsusp Hr Hres Hact Hasl Hinj Htrk Htrkl Hclk Hnsl].
+  set (K := length specs).
+  assert (length (c_tb s) = K) as HK by (rewrite Htb, map_length; reflexivity).
+  destruct (q_push (c_tq s) 0 (Z.of_nat K) Htq) as [Htq' Hperm].
+  assert (forall t, (t < K)%nat -> status (trk_submit tr) t = status tr t) as Hst.
+  { intros t Ht. unfold status, trk_submit. cbn [k_tasks]. apply app_nth1. rewrite Hlen. exact Ht. }
+  assert (status (trk_submit tr) K = NotStarted) as HstK.
+  { unfold status, trk_submit. cbn [k_tasks]. rewrite app_nth2 by (rewrite Hlen; unfold K; lia).
+    rewrite Hlen. replace (K - length specs)%nat with O by (unfold K; lia). reflexivity. }
+  assert (forall t, (K < t)%nat -> status (trk_submit tr) t = Finished) as HstGt.
+  { intros t Ht. apply status_ge. unfold trk_submit. cbn [k_tasks]. rewrite app_length, Hlen. cbn [length]. unfold K in *. lia. }
+  assert (forall t, (K <= t)%nat -> status tr t = Finished) as HstOld by (intros t Ht; apply status_ge; rewrite Hlen; exact Ht).
+  assert (forall t n T lg, spec_sleeper specs t n T lg -> spec_sleeper (specs ++ [sp]) t n T lg) as Hspec.
+  { intros t n T lg Hs. unfold spec_sleeper in *. rewrite nth_error_app1; [exact Hs|]. apply nth_error_Some. congruence. }
+  assert (forall t, (t < K)%nat -> slp (specs ++ [sp]) t = slp specs t) as Hslp.
+  { intros t Ht. unfold slp. rewrite nth_error_app1 by exact Ht. reflexivity. }
+  assert (forall t T, status tr t = Asleep T -> (t < K)%nat) as Hasl_lt.
+  { intros t T Ht. destruct (lt_dec t K) as [Hl|Hl]; [exact Hl|]. rewrite HstOld in Ht by lia. discriminate. }
+  constructor; try assumption.
+  - cbn [c_tq submit_c]. rewrite HK. exact Htq'.
+  - cbn [c_tq submit_c]. rewrite HK. apply perm_map_snoc. rewrite Hperm. apply perm_skip, Htqi.
+  - cbn [c_tb submit_c]. rewrite map_app, Htb, Hparse. reflexivity.
+  - intro t. cbn [c_tp submit_c]. destruct (lt_dec t (length (c_tp s))) as [Hl|Hl].
+    + rewrite app_nth1 by exact Hl. apply Htp.
+    + rewrite app_nth2 by lia. destruct (t - length (c_tp s))%nat as [|[|?]]; reflexivity.
+  - apply NoDup_app_snoc; [exact HQnd|]. intro Hin. apply HQst in Hin. unfold K in Hin. lia.
+  - intro t. rewrite in_app_iff, app_length. cbn [In length]. destruct (lt_dec t K) as [Hl|Hl].
+    + rewrite Hst by exact Hl. rewrite HQst. fold K. split; [intros [[_ Hx]|[Hx|[]]]; [split; [lia|exact Hx] | lia] | intros [_ Hx]; left; split; assumption].
+    + destruct (Nat.eq_dec t K) as [->|Hne].
+      * rewrite HstK. split; [intros _; split; [unfold K; lia | reflexivity] | intros _; right; left; reflexivity].
+      * rewrite HstGt by lia. rewrite HQst. fold K. split; [intros [[Hx _]|[Hx|[]]]; lia | intros [_ Hx]; discriminate].
+  - unfold trk_submit. cbn [k_tasks]. rewrite !app_length, Hlen. reflexivity.
+  - intros w Hin. destruct (Hrun w Hin) as (k & Hk & Hc). exists k. split; [exact Hk|].
+    destruct Hc as [Hc|(t & n & T & lg & Hs & Hh & Hsp & Hstt)]; [left; exact Hc | right].
+    exists t, n, T, lg. split; [exact Hs|]. split; [exact Hh|]. split; [apply Hspec, Hsp|].
+    rewrite Hst; [exact Hstt | eapply Hasl_lt, Hstt].
+  - intros T w Hin. destruct (Hpark T w Hin) as (k & t & n & lg & Hk & Hs & Hh & Hsp & Hstt).
+    exists k, t, n, lg. split; [exact Hk|]. split; [exact Hs|]. split; [exact Hh|]. split; [apply Hspec, Hsp|].
+    rewrite Hst; [exact Hstt | eapply Hasl_lt, Hstt].
+  - intros t r Hr'. cbn [c_res submit_c] in Hr'. destruct (Hres t r Hr') as [Hl Hf]. rewrite app_length. cbn [length].
+    split; [lia|]. rewrite Hst by exact Hl. exact Hf.
+  - intros t Ht. destruct (lt_dec t K) as [Hl|Hl].
+    + rewrite Hst in Ht by exact Hl. apply Hact, Ht.
+    + destruct (Nat.eq_dec t K) as [->|Hne]; [rewrite HstK in Ht; discriminate | rewrite HstGt in Ht by lia; discriminate].
+  - intros t T Ht. destruct (lt_dec t K) as [Hl|Hl].
+    + rewrite Hst in Ht by exact Hl. apply Hasl, Ht.
+    + destruct (Nat.eq_dec t K) as [->|Hne]; [rewrite HstK in Ht; discriminate | rewrite HstGt in Ht by lia; discriminate].
+  - assert (nwk (submit_c s body) R = nwk s R) as -> by reflexivity.
+    rewrite app_length. cbn [length]. rewrite Nat.add_1_r, seq_S. cbn [plus]. rewrite !nslp_app. fold K.
+    rewrite (nslp_ext specs (specs ++ [sp]) Q) by (intros t Hin; apply Hslp, HQst, Hin).
+    rewrite (nslp_ext specs (specs ++ [sp]) (seq 0 K)) by (intros t Hin; apply Hslp; apply in_seq in Hin; lia).
+    cbn [cslp] in *. unfold K in *. lia.
+Qed.
+
+Lemma inv_clock mx specs s d tr Q R c :
+  INV mx specs s d tr None None Q R -> INV mx specs (s_clock s c) d (trk_clock tr c) None None Q R.
+Proof.
+  intro H.
+  destruct H as [Htq Hcq Htqi Hcqi Hcts Htb Htp Hwp Hnd Hlt HQnd HQst Hlen Hrun Hpark Hoth Hscnd Hsc Hsusp Hr Hres Hact Hasl Hinj Htrk Htrkl Hclk Hnsl].
+  constructor; try assumption. reflexivity.
+Qed.
+
+Lemma inv_init mx c : INV mx [] (cst0 c) sdata0 (trk0 c) None None [] [].
+Proof.
+  constructor; cbn [cst0 c_tq c_cq c_ts c_tb c_tp c_wp c_ws c_run c_res c_clock sdata0 sd_sys_suspend sd_syscall sd_suspend
+                    trk0 k_tasks k_workers k_clock allw curw parked_ws map app length]; try reflexivity.
+  - apply QOK_init.
+  - apply QOK_init.
+  - intro t; destruct t; reflexivity.
+  - intro w; destruct w; reflexivity.
+  - constructor.
+  - intros w [].
+  - constructor.
+  - intro t. cbn [In length]. split; [tauto | intros [Hx _]; lia].
+  - intros w [].
+  - intros T w [].
+  - intros w k Hk. destruct w; discriminate.
+  - constructor.
+  - intros t r Hx. discriminate.
+  - intros t. unfold status. cbn [k_tasks]. destruct t; discriminate.
+  - intros t T. unfold status. cbn [k_tasks]. destruct t; discriminate.
+  - intros w1 w2 t [].
+  - intro w. destruct w; reflexivity.
 Qed.
